@@ -7,10 +7,11 @@ CONSTANTS
  Variants <- A_two
  NaiveMaxP = 17
  NaiveVariants <- D_two
+ AccMaxP = 60
  NbrMaxP = 47
- NbrVariants <- N_two
+ NbrVariants <- A_twoq
  Mode = "nbr"
  CheckArith = FALSE
- SortedBases = FALSE
+ SortedBases = TRUE
 INVARIANTS BlockIsDefinition BlockSound Sound Complete Shape Elements Emit
 CHECK_DEADLOCK FALSE
